@@ -19,7 +19,7 @@ use common_lang_types::{CurrentWorkingDirectory, Diagnostic, Location};
 use graphql_network_protocol::GraphQLAndJavascriptProfile;
 use intern::string_key::{Intern, Lookup};
 use isograph_compiler::batch_compile::{compile, CompilationStats};
-use isograph_compiler::watch::SourceFileEvent;
+pub use isograph_compiler::watch::{ChangedFileKind, SourceEventKind, SourceFileEvent};
 use isograph_compiler::{update_sources, CompilerState};
 use isograph_config::create_config;
 use std::collections::BTreeMap;
